@@ -59,6 +59,22 @@ def main():
     only = args[args.index('--only') + 1] if '--only' in args else None
     tier = args[args.index('--tier') + 1] if '--tier' in args else 'quick'
     forced = args[args.index('--checks') + 1].split(',') if '--checks' in args else None
+    # run the checks from a private snapshot of the framework, so that editing /verif while a long
+    # sensitivity run is in progress cannot mix two versions of the code inside one check
+    snap = tempfile.mkdtemp(prefix='athlib-verif-snap-')
+    for name in ('run_check.py', 'simkit', 'corpus', 'KNOWN_FINDINGS.txt'):
+        src = os.path.join(VERIF, name)
+        if os.path.isdir(src):
+            shutil.copytree(src, os.path.join(snap, name), ignore=shutil.ignore_patterns('__pycache__'))
+        elif os.path.exists(src):
+            shutil.copy(src, os.path.join(snap, name))
+    try:
+        return _main(only, tier, forced, snap)
+    finally:
+        shutil.rmtree(snap, ignore_errors=True)
+
+
+def _main(only, tier, forced, snap):
     report_path = os.path.join(VERIF, 'selftest', 'sensitivity-report.json')
     report = json.load(open(report_path)) if os.path.exists(report_path) else {}
     for case in cases():
@@ -87,7 +103,7 @@ def main():
             for chk in (forced or case['checks']):
                 t0 = time.time()
                 env = dict(os.environ, VERIF_REPO=copy, VERIF_OUT=out, VERIF_TIER=tier)
-                rc, o = sh([PY, os.path.join(VERIF, 'run_check.py'), chk, '--tier', tier], cwd=VERIF, env=env, timeout=4 * 3600)
+                rc, o = sh([PY, os.path.join(snap, 'run_check.py'), chk, '--tier', tier], cwd=snap, env=env, timeout=4 * 3600)
                 vl = [l for l in o.splitlines() if l.startswith('VIOLATION')]
                 classes = []
                 for l in vl:
